@@ -66,10 +66,24 @@ const (
 	opConvertImage
 	opAdapt
 	opLoad
+	opSharedSrc
 	nOps
 )
 
-var opNames = [...]string{"From16Bit", "To16Bit", "From8Bit", "To8Bit", "LineariseColor", "EncodeColor", "LineariseImage", "EncodeImage", "ConvertImageToRGBA64", "Bradford.Apply", "meta.Load"}
+// sharedSources are read-only inputs that several caller tasks transform at the
+// same time into private destinations (legal use: the transforms must not write
+// to, or keep state about, their source). Built once at package initialisation.
+var sharedSources = func() [2]*image.RGBA64 {
+	var out [2]*image.RGBA64
+	for i := range out {
+		img := image.NewRGBA64(image.Rect(-2, 1, 3, 5))
+		tape.NewRand(uint64(77 + i)).Fill(img.Pix)
+		out[i] = img
+	}
+	return out
+}()
+
+var opNames = [...]string{"From16Bit", "To16Bit", "From8Bit", "To8Bit", "LineariseColor", "EncodeColor", "LineariseImage", "EncodeImage", "ConvertImageToRGBA64", "Bradford.Apply", "meta.Load", "LineariseImage(shared source)"}
 var spaceNames = [...]string{"srgb", "adobergb", "prophotorgb", "displayp3"}
 
 func (o opSpec) String() string {
@@ -91,7 +105,7 @@ func tableOf(o opSpec) int {
 		sp = 0 // Display P3 borrows sRGB's tables
 	}
 	switch o.Kind {
-	case opFrom16, opLineariseColor, opLineariseImage:
+	case opFrom16, opLineariseColor, opLineariseImage, opSharedSrc:
 		return sp * 2
 	case opTo16, opEncodeColor, opEncodeImage:
 		return sp*2 + 1
@@ -119,7 +133,7 @@ func drawOp(t *tape.Tape, forceTable int) opSpec {
 			o.Kind = kinds[2]
 		}
 	} else {
-		o.Kind = t.Pick(3, 3, 1, 1, 3, 3, 2, 2, 1, 1, 2)
+		o.Kind = t.Pick(3, 3, 1, 1, 3, 3, 2, 2, 1, 1, 2, 2)
 		o.Space = t.Intn(4)
 		if o.Space == 3 && o.Kind <= opTo8 {
 			o.Space = t.Intn(3)
@@ -192,7 +206,8 @@ func execOp(o opSpec) uint64 {
 		}
 	case opLineariseColor, opEncodeColor:
 		a := uint16(o.C) | 0x8000
-		c := color.RGBA64{R: uint16(o.A) % (a + 1), G: uint16(o.A>>16) % (a + 1), B: uint16(o.B) % (a + 1), A: a}
+		m := uint32(a) + 1 // channel <= alpha; computed in 32 bits (a may be 0xFFFF)
+		c := color.RGBA64{R: uint16(o.A & 0xFFFF % m), G: uint16(o.A >> 16 % m), B: uint16(o.B & 0xFFFF % m), A: a}
 		var r color.RGBA64
 		if o.Kind == opLineariseColor {
 			r = spaceFns[o.Space].lin(c)
@@ -215,6 +230,11 @@ func execOp(o opSpec) uint64 {
 			spaceFns[o.Space].encImg(dst, src, par)
 		}
 		return hashBytes(uint64(w*16+h), dst.Pix)
+	case opSharedSrc:
+		src := sharedSources[o.A%2]
+		dst := image.NewRGBA64(src.Rect)
+		spaceFns[o.Space].linImg(dst, src, 1+int(o.C%4))
+		return hashBytes(hashBytes(11, dst.Pix), src.Pix)
 	case opConvertImage:
 		src := image.NewYCbCr(image.Rect(0, 0, 3+int(o.A%3), 3+int(o.A>>8%3)), image.YCbCrSubsampleRatio420)
 		r := tape.NewRand(uint64(o.C))
@@ -342,6 +362,8 @@ func runPhase(p phaseSpec) phaseResult {
 		pr.Post[i] = make([]uint64, len(p.Tasks[i]))
 	}
 	before := simrt.RaceErrors()
+	simrt.ResetSteps(60000000) // six table builds take about 3 million steps; beyond the budget a task does not terminate
+	defer simrt.ResetSteps(0)
 	var wg sync.WaitGroup // the caller's own, race-visible join
 	res := simrt.Run(p.Sched, func() {
 		for i := 0; i < n; i++ {
@@ -527,6 +549,11 @@ func (c11) Run(t *tape.Tape, st *Stats) *Violation {
 		if o.Races > 0 {
 			coarse, detail := RaceSignature(o.RaceText)
 			return &Violation{Class: "data-race", Sig: "data-race:" + coarse, Detail: fmt.Sprintf("%s: %d race report(s), first: %s [%s]", name, o.Races, detail, tr.Phases[ph].ScDesc), Render: render()}
+		}
+		for _, ps := range o.Panics {
+			if ps == (simrt.StepBudgetExceeded{}).Error() {
+				return &Violation{Class: "livelock", Sig: "livelock", Detail: name + ": step budget of 60000000 instrumented statements exceeded: a task does not terminate [" + tr.Phases[ph].ScDesc + "]", Render: render()}
+			}
 		}
 		if len(o.Panics) > 0 {
 			return &Violation{Class: "panic", Sig: "panic", Detail: fmt.Sprintf("%s: %v", name, o.Panics), Render: render()}
